@@ -53,6 +53,25 @@ void RS__ZNSt18condition_variable4waitERSt11unique_lockISt5mutexE_end(int tid, u
   cv_wait[cv_slot(cv)] &= ~(1u << tid);
   mtx_owner[mtx_slot(m)] = (u32)tid + 1; rs_held[tid]++;
 }
+void RS_pthread_cond_clockwait_begin(int tid, u8 *c, u8 *m, u32 clk, u8 *ts)
+{
+  (void)clk; (void)ts;
+  u32 s = mtx_slot(m);
+  ENV_ASSERT(mtx_owner[s] == (u32)tid + 1, "timed condition wait without holding the lock");
+  mtx_owner[s] = 0; rs_held[tid]--;
+  cv_wait[cv_slot(c)] |= 1u << tid;
+}
+int RS_ENABLED_pthread_cond_clockwait_end(int tid, u8 *c, u8 *m, u32 clk, u8 *ts) { (void)tid; (void)c; (void)clk; (void)ts; return mtx_owner[mtx_slot(m)] == 0; }
+u32 RS_pthread_cond_clockwait_end(int tid, u8 *c, u8 *m, u32 clk, u8 *ts)
+{
+  (void)clk; (void)ts;
+  u32 timed_out = (cv_wait[cv_slot(c)] >> tid) & 1u;
+  cv_wait[cv_slot(c)] &= ~(1u << tid);
+  mtx_owner[mtx_slot(m)] = (u32)tid + 1; rs_held[tid]++;
+  return timed_out ? 110u : 0u;                         /* ETIMEDOUT */
+}
+u32 X_pthread_cond_clockwait(u8 *c, u8 *m, u32 clk, u8 *ts) { ENV_ASSERT(0, "timed condition wait outside a step function"); return 0; }
+u32 X_pthread_cond_timedwait(u8 *c, u8 *m, u8 *ts) { ENV_ASSERT(0, "timed condition wait outside a step function"); return 0; }
 void X__ZNSt18condition_variable10notify_allEv(u8 *cv) { cv_wait[cv_slot(cv)] = 0; }
 void X__ZNSt18condition_variableC1Ev(u8 *cv) { memset(cv, 0, 48); cv_wait[cv_slot(cv)] = 0; }
 void X__ZNSt18condition_variableD1Ev(u8 *cv) { ENV_ASSERT(cv_wait[cv_slot(cv)] == 0, "condition variable destroyed while a thread waits on it"); }
